@@ -83,7 +83,7 @@ prop("C01", NEC + "Clauses: positions handed to TokenChange queries are absolute
       {"rule": "TRAVERSE", "filter": tag("traverse", "binops"), "floor": 110},
       {"rule": "TOKEN-ERRORS", "floor": 2}, {"rule": "TABLES", "filter": tag("T2"), "floor": 18},
       {"rule": "UPDATE-ORDER", "floor": 3}, {"rule": "RELEX-WINDOW", "floor": 8}, {"rule": "STRIP-REBUILD", "floor": 2},
-      {"rule": "COMMENT-LEX", "floor": 5}, {"rule": "TEXT-SYNC", "filter": tag("batch"), "floor": 4}, {"rule": "REUSE", "floor": 14},
+      {"rule": "COMMENT-LEX", "floor": 5}, {"rule": "TEXT-SYNC", "filter": tag("batch"), "floor": 4}, {"rule": "REUSE", "floor": 18},
       {"rule": "ERROR-OWNER", "floor": 20}])
 
 prop("C02", NEC + "Clauses: token-range to text-range conversions unwrap first()/last() only in the arm complementary "
@@ -103,7 +103,7 @@ prop("C02", NEC + "Clauses: token-range to text-range conversions unwrap first()
       {"rule": "RECURSION-BOUND", "floor": 4}, {"rule": "CODEC", "floor": 8}, {"rule": "BROKER", "filter": tag("answer"), "floor": 1},
       {"rule": "ERR-FRAME", "filter": tag("entry"), "floor": 3},
       # a handler that takes the first token of a node's slice for the node's own token *and* panics on another kind of token
-      {"rule": "SLICE-FIRST", "filter": tag("panics"), "floor": 2}])
+      {"rule": "SLICE-FIRST", "filter": tag("panics"), "floor": 0}])
 
 prop("C03", NEC + "Clauses: each of the 27 build/semantic message kinds has an emitting site under table::* and its own "
      "text (VARIANTS); every error is attached in the reference frame of the node that owns it and is shifted exactly "
@@ -228,7 +228,7 @@ prop("C12", NEC + "Clauses: an entry's name range is resolved against the token 
       {"rule": "SCOPE-ORDER", "filter": both(feat("goto"), nottag("typescope", "semantic")), "floor": 24}, {"rule": "ENTRY-GUARD", "floor": 6}, {"rule": "ENTRY-KIND", "floor": 4},
       {"rule": "LOOKUP-NOPANIC", "filter": feat("goto"), "floor": 8}, {"rule": "BUILTIN-SET", "floor": 3}, {"rule": "POS-CONV", "filter": feat("goto"), "floor": 6},
        {"rule": "IDENT-RANGE", "filter": both(tag("identexact"), feat("goto")), "floor": 1},
-      {"rule": "CURSOR-CMP", "filter": feat("goto"), "floor": 0}, {"rule": "INDEX-DOMAIN", "floor": 2},
+      {"rule": "CURSOR-CMP", "filter": feat("goto"), "floor": 0}, {"rule": "INDEX-DOMAIN", "floor": 6},
       {"rule": "FRAME", "filter": files("parser.rs", "utility.rs"), "floor": 3},
       {"rule": "TEXT-SYNC", "filter": tag("utf16"), "floor": 1},
       {"rule": "ERR-FRAME", "filter": tag("entry"), "floor": 3}])
@@ -241,7 +241,7 @@ prop("C13", NEC + "Clauses: the finder walkers descend into every statement/expr
       {"rule": "FRAME", "filter": files("references.rs"), "floor": 56}, {"rule": "SAME-FINDER", "floor": 3},
       {"rule": "SCOPE-ORDER", "filter": both(feat("references"), nottag("typescope", "semantic")), "floor": 10}, {"rule": "IDENT-RANGE", "filter": feat("references"), "floor": 3}, {"rule": "POS-CONV", "filter": feat("references"), "floor": 4},
        {"rule": "BSEARCH-MONO", "floor": 1},
-      {"rule": "CURSOR-CMP", "filter": feat("references"), "floor": 0}, {"rule": "INDEX-DOMAIN", "floor": 2},
+      {"rule": "CURSOR-CMP", "filter": feat("references"), "floor": 0}, {"rule": "INDEX-DOMAIN", "floor": 6},
       {"rule": "FRAME", "filter": files("parser.rs", "utility.rs"), "floor": 3},
       {"rule": "TEXT-SYNC", "filter": tag("utf16"), "floor": 1}])
 
@@ -255,7 +255,7 @@ prop("C14", NEC + "Clauses: the call statement is located with node, origin and 
      [{"rule": "FRAME", "filter": files("signature_help.rs"), "floor": 8},
       {"rule": "TRAVERSE", "filter": tag("calls"), "floor": 18}, {"rule": "SCOPE-ORDER", "filter": both(feat("hover", "signature_help"), nottag("typescope", "semantic")), "floor": 10},
       {"rule": "DISPLAY-FIELDS", "floor": 6}, {"rule": "IDENT-RANGE", "filter": feat("hover", "signature_help"), "floor": 4}, {"rule": "POS-CONV", "filter": feat("hover", "signature_help"), "floor": 4},
-      {"rule": "CURSOR-CMP", "filter": feat("hover", "signature_help"), "floor": 1}, {"rule": "INDEX-DOMAIN", "floor": 2}, {"rule": "DOC-FLOW", "floor": 1},
+      {"rule": "CURSOR-CMP", "filter": feat("hover", "signature_help"), "floor": 1}, {"rule": "INDEX-DOMAIN", "floor": 6}, {"rule": "DOC-FLOW", "floor": 1},
       {"rule": "POSITION-TOKEN", "filter": both(tag("nest"), feat("hover", "signature_help")), "floor": 0},
       {"rule": "FRAME", "filter": files("parser.rs", "utility.rs"), "floor": 3},
       {"rule": "TEXT-SYNC", "filter": tag("utf16"), "floor": 1}])
@@ -285,13 +285,17 @@ prop("C17", NEC + "Clause: the procedure's token range is made absolute with the
      "afterwards (ONE-PER-ITEM); the document the ranges are computed from is the client's: batched changes are converted and "
      "applied in the order sent (TEXT-SYNC batch, UPDATE-ORDER); a procedure extends to the next `proc`/`type` *token*, so `proc` is a keyword "
      "only as a whole word (KEYWORD-BOUNDARY); these tokens are the incrementally maintained ones: a token that a change can extend is "
-     "lexed again (T2 look-ahead table and its use) and the re-lexed window is spliced at the right offsets (RELEX-WINDOW)." + PARSER_REF,
+     "lexed again (T2 look-ahead table and its use) and the re-lexed window is spliced at the right offsets (RELEX-WINDOW); the tree is the "
+     "incrementally maintained one as well: old nodes are reused only aligned, untouched and free of syntax errors (REUSE)." + PARSER_REF,
      [{"rule": "FRAME", "filter": files("fold.rs"), "floor": 2}, {"rule": "POS-CONV", "filter": feat("fold"), "floor": 6},
       {"rule": "ONE-PER-ITEM", "floor": 3}, {"rule": "SLICE-FIRST", "floor": 20}, {"rule": "BSEARCH-MONO", "floor": 1},
       {"rule": "KEYWORD-BOUNDARY", "filter": nottag("charvalue"), "floor": 3}, {"rule": "TEXT-SYNC", "filter": tag("batch"), "floor": 4},
       {"rule": "UPDATE-ORDER", "floor": 3}, {"rule": "FRAME", "filter": files("parser.rs", "utility.rs"), "floor": 3},
       {"rule": "TEXT-SYNC", "filter": tag("utf16"), "floor": 1}, {"rule": "TABLES", "filter": tag("T2"), "floor": 18},
-      {"rule": "RELEX-WINDOW", "floor": 8}])
+      {"rule": "RELEX-WINDOW", "floor": 8},
+      # ... and the tree the procedure extents are read from is the incrementally maintained one: an old node is reused only where it is
+      # aligned, untouched and free of syntax errors
+      {"rule": "REUSE", "floor": 18}])
 
 prop("C18", NEC + "Clauses: every path through every Request arm of the three phase loops splits the request, "
      "turns the PreparedResponse into exactly one Response and sends it; phase x situation -> error code table; "
